@@ -126,6 +126,7 @@ func init() {
 			Runs: []Run{
 				{Harness: "zzverif/zzh.ZZC01Basic", Desc: "one package: @immutable/@constructor/@mutable presence, compound operator (all 11) and ++/-- symbolic; assignment, compound, mutable field, index, inc/dec, read, constructor body",
 					Bounds: map[string]interface{}{"skeleton": "c01SrcD", "holes": 5}},
+				{Harness: "zzverif/zzh.ZZC01Edge", Desc: "edge forms of a direct field write: parenthesised targets ((x.f) = v, (x.f)[i], (x.f)++, (x.f) += v, (x).f, (*x).f), compound assignment / parenthesised inc-dec and set through the pointer receiver, fields promoted through an embedded @immutable struct (value and pointer embedding; =, ++, op=, element), an @mutable doc above a field declaration with two names, and a function-local type sharing the annotated type's name (nothing reported)", Bounds: map[string]interface{}{"skeleton": "c01SrcEdge", "sites": 22, "holes": 3}},
 				{Harness: "zzverif/zzh.ZZC01Methods", Desc: "pointer/value receiver methods, receiver overwrite and increment, nesting in if/for/switch/select/closure/defer/go, value variable, unannotated twin; annotations on T, N and the constructor list symbolic", Bounds: map[string]interface{}{"skeleton": "c01SrcMethods", "holes": 3}},
 				{Harness: "zzverif/zzh.ZZC01Init", Desc: "writes in package-level initialisers: before any function, after a constructor in the same file, in another file of the package (3 files)", Bounds: map[string]interface{}{"skeleton": "c01SrcInit{A,B,C}", "holes": 2}},
 				{Harness: "zzverif/zzh.ZZC01Shadow", Desc: "receiver overwrite vs. a block-local variable and a closure parameter that share the receiver name", Bounds: map[string]interface{}{"skeleton": "c01SrcShadow"}},
@@ -144,6 +145,7 @@ func init() {
 			Runs: []Run{
 				{Harness: "zzverif/zzh.ZZC02Basic", Desc: "every instantiation form (T{}, &T{}, elided slice/map element, new(T), var x T, var x,y T) and the negatives (*T var, blank, initialised var, unannotated type), inside/outside the listed constructors, package-level vars before/after a constructor; constructor list spelling symbolic", Bounds: map[string]interface{}{"skeleton": "c02SrcA", "holes": 1}},
 				{Harness: "zzverif/zzh.ZZC02Forms", Desc: "two-file package whose second file never spells the annotated type: alias (T{}, new, var), named slice / pointer-map types with elided elements, []*T / map[K]*T elided pointer elements, arrays, nested literals, literals as field values, new((T)), closures inside a constructor, a constructor in the other file, init, generic function, method, nested blocks, go/defer closures, package-level vars; constructor list symbolic over 4 spellings", Bounds: map[string]interface{}{"skeleton": "c02SrcF1+F2", "sites": 25, "list_spellings": 4}},
+				{Harness: "zzverif/zzh.ZZC02Local", Desc: "a function-local type sharing the annotated type's name (T{}, new(T), var: nothing reported) and a local function value named new called with a *T (not an instantiation)", Bounds: map[string]interface{}{"skeleton": "c02SrcLocal"}},
 				{Harness: "zzverif/zzh.ZZCrossImmCtor", Desc: "instantiations in the importing package (T{}, new(T), var), incl. all three forms inside a same-named function of the importer", Bounds: map[string]interface{}{"skeleton": "crossSrc{D,U}", "holes": 4}},
 			},
 			Outside:     []string{"generics; type parameters; struct embedding of the annotated type; reflect-based instantiation"},
@@ -158,6 +160,7 @@ func init() {
 			ID: "C03",
 			Runs: []Run{
 				{Harness: "zzverif/zzh.ZZC03Same", Desc: "same package: call, method call, composite literal, var, field, parameter, method value, unannotated twins; file name (regular / _test.go / look-alike), scan-tests, @testonly on type/func/method/enclosing function and enclosing method all symbolic", Bounds: map[string]interface{}{"skeleton": "c03SrcD + c03SrcProd", "holes": 6, "config": "ScanTests symbolic"}},
+				{Harness: "zzverif/zzh.ZZC03Edge", Desc: "uses nested inside an already reported call, an unannotated method named like a @testonly function (and a function named like a @testonly method), parenthesised callees, a method promoted through embedding vs the explicit path, elided composite literals ([]*T{{}}, map[K]T{k:{}}) as the only use in their file, a function-local type sharing the @testonly type's name, a dot-importing package (call, method call, literal); 2^4 annotation combinations", Bounds: map[string]interface{}{"skeleton": "c03Src{ED,E1,E2,E2b,E3,EU}", "holes": 4}},
 				{Harness: "zzverif/zzh.ZZC03Shadow", Desc: "local variable / parameter sharing the name of a @testonly function", Bounds: map[string]interface{}{"skeleton": "c03SrcShadow"}},
 				{Harness: "zzverif/zzh.ZZC03Cross", Desc: "uses in a directly importing package (facts), same-named local function and method", Bounds: map[string]interface{}{"skeleton": "c03SrcD + c03SrcU", "holes": 3}},
 				{Harness: "zzverif/zzh.ZZC03TwoPkgs", Desc: "two imported packages declaring a same-named @testonly type, both used in one file", Bounds: map[string]interface{}{"skeleton": "c03SrcD1/D2/U2", "holes": 2}},
@@ -236,6 +239,7 @@ func init() {
 			Runs: []Run{
 				{Harness: "zzverif/zzh.ZZC12Gofmt", Desc: "two writes that an unformatted source keeps on one physical line (if/else on one line; two statements separated by ';') are reported as often as after gofmt has split the lines", Bounds: map[string]interface{}{"holes": 1}},
 				{Harness: "zzverif/zzh.ZZC12Layout", Desc: "the same six declarations (annotated type, constructor, user function, package-level initialiser, method with receiver overwrite and a shadowing local, @testonly function) in five layouts: canonical, reversed order, split over two files with blank lines / line and block comments inserted, files in another order, locals and receiver consistently renamed; annotations symbolic; 10 statement tags x 4 codes compared", Bounds: map[string]interface{}{"layouts": 7, "holes": 3, "statement_tags": 10}},
+				{Harness: "zzverif/zzh.ZZC02Local", Desc: "consistent renaming of a local: a local function value named new vs the same function named mk, both called with a *T: same (empty) verdict", Bounds: map[string]interface{}{"skeleton": "c02SrcLocal"}},
 			},
 			Outside:     []string{"gofmt reformatting other than blank lines/comments and the two line-split cases of ZZC12Gofmt", "TONL01/PKGO01 once-per-file placement under reordering (the using package and type are compared in C03/C04, not here)", "compositions of more than the listed transformations"},
 			Assumptions: []string{"as C01-C03"},
